@@ -40,7 +40,8 @@ MANIFEST = {
 }
 RULE = ("programs: setUp / test / tearDown / 0-2 cleanups, each stage one of return, raise (error, failure, skip, "
         "KeyboardInterrupt), Deferred firing/failing after a delay in {<,=,>} of what is left of the timeout, never, "
-        "decorated with 0-2 leftover delayed calls / a logged error / a dropped failed Deferred; timeout; optional "
+        "decorated with 0-2 leftover delayed calls / a self-rescheduling poller / a logged error / a dropped failed "
+        "Deferred; timeout; optional "
         "interrupt instant; runner variant x suppress_twisted_logging x store_twisted_logs x 0-2 pre-installed log "
         "observers; non-trivial = at least one asynchronous stage and one non-clean stage or a cut; distinct = "
         "distinct JSON")
@@ -117,6 +118,12 @@ def drive(case):
                 tlog.err(Failure(_UserErr("logged")))
             if st["drop"]:
                 defer.fail(_UserErr("dropped"))
+            if st.get("poll") is not None:
+                start, every = st["poll"]
+
+                def poll():
+                    keep.append(reactor.callLater(every, poll))
+                keep.append(reactor.callLater(start, poll))
             r = st["ret"]
             if r[0] == "return":
                 return None
@@ -194,8 +201,8 @@ def t_stage(st):
         ret = "(RLater %s %s)" % (q.nat(r[1]), q.option(r[2], lambda c: CLS_T[c]))
     else:
         ret = "RNever"
-    return "(mkStage %s %s %s %s)" % (ret, q.lst([q.nat(x) for x in st["leave"]]), q.boolean(st["logerr"]),
-                                      q.boolean(st["drop"]))
+    return "(mkStage %s %s %s %s %s)" % (ret, q.lst([q.nat(x) for x in st["leave"]]), q.boolean(st["logerr"]),
+                                         q.boolean(st["drop"]), q.boolean(st.get("poll") is not None))
 
 
 def term(case, o):
@@ -222,8 +229,9 @@ def perturb(case, o):
 
 
 # ---------------- generation ----------------
-def st(ret=("return",), leave=(), logerr=False, drop=False):
-    return {"ret": list(ret), "leave": list(leave), "logerr": bool(logerr), "drop": bool(drop)}
+def st(ret=("return",), leave=(), logerr=False, drop=False, poll=None):
+    return {"ret": list(ret), "leave": list(leave), "logerr": bool(logerr), "drop": bool(drop),
+            "poll": None if poll is None else list(poll)}
 
 
 def mk(setup=None, body=None, teardown=None, cleanups=(), timeout=6, interrupt=None, broken=False, suppress=True,
@@ -279,7 +287,9 @@ def rand_stage(rng, T):
     else:
         ret = ("never",)
     leave = [rng.choice([0, 0, 1, 2, 3, T, T + 3]) for _ in range(rng.choice([0, 0, 0, 0, 1, 1, 2]))]
-    return st(ret, leave, rng.random() < 0.08, rng.random() < 0.08)
+    # a poller reschedules itself every >= 1 ticks (with 0 virtual time would never move again)
+    poll = [rng.choice([0, 0, 1, 2, T]), rng.choice([1, 1, 2])] if rng.random() < 0.06 else None
+    return st(ret, leave, rng.random() < 0.08, rng.random() < 0.08, poll)
 
 
 def generate(rng, tier):
@@ -306,6 +316,24 @@ def generate(rng, tier):
         mk(body=st(("later", 3, None)), teardown=st(("later", 2, "err")), nobs=2, suppress=False, store=False),
         mk(body=st(("later", T, None))), mk(body=st(("later", T - 1, None)), teardown=st(("later", 1, None))),
     ]
+    # a leftover that is already due and reschedules itself when it fires (callLater(0, poll) / LoopingCall(0)):
+    # never clean, and the reactor must be empty afterwards - also when the obligatory iterations ran it
+    for broken in (False, True):
+        fixed += [
+            mk(body=st(poll=[0, 0]), broken=broken), mk(teardown=st(poll=[0, 1]), broken=broken),
+            mk(cleanups=[st(poll=[0, 0])], broken=broken),
+            mk(body=st(("later", 2, None)), teardown=st(poll=[0, 1]), broken=broken),
+            mk(body=st(("later", 2, None), poll=[1, 1]), broken=broken),
+            mk(body=st(("never",), poll=[0, 2]), broken=broken),
+        ]
+    # a FAILED setUp (raises / Deferred failing later / skip) with cleanups that return Deferreds: they are
+    # still awaited, in reverse order, before stopTest; a skip in setUp stays a skip
+    for su in (st(("raise", "err")), st(("raise", "skip")), st(("later", 1, "fail")), st(("later", 2, "skip")),
+               st(("raise", "kbd"))):
+        for cls in ([st(("later", 2, None))], [st(("later", 1, None)), st(("later", 2, None))],
+                    [st(), st(("later", 3, "err"))], [st(("later", 1, None), leave=[1]), st(("never",))],
+                    [st(("later", T, None)), st()]):
+            fixed.append(mk(setup=su, cleanups=cls))
     cases += fixed
     # bounded-exhaustive core: 8 behaviours for setUp x body x tearDown x (no cleanup | one of 8)
     core = []
@@ -343,7 +371,7 @@ def nontrivial(case):
     sts = plan(case)
     asyn = any(s["ret"][0] in ("later", "never") for s in sts)
     unclean = any(s["ret"][0] == "raise" or (s["ret"][0] == "later" and s["ret"][2]) or s["leave"] or s["logerr"]
-                  or s["drop"] for s in sts)
+                  or s["drop"] or s.get("poll") for s in sts)
     return asyn and (unclean or case["interrupt"] is not None)
 
 
@@ -381,11 +409,14 @@ def shrink(case):
             yield put(dict(s, logerr=False))
         if s["drop"]:
             yield put(dict(s, drop=False))
+        if s.get("poll") is not None:
+            yield put(dict(s, poll=None))
 
 
 def distribution(cases):
     d = {"variant": {"plain": 0, "broken": 0}, "suppress": 0, "store": 0, "with_interrupt": 0, "cleanups": {},
-         "stage_ret": {}, "with_leftovers": 0, "with_logged_error": 0, "with_dropped_failure": 0,
+         "stage_ret": {}, "with_leftovers": 0, "with_logged_error": 0, "with_dropped_failure": 0, "with_poller": 0,
+         "failed_setup_with_async_cleanup": 0,
          "later_vs_cut": {"<": 0, "=": 0, ">": 0}, "extra_observers": {}}
     for c in cases:
         d["variant"]["broken" if c["broken"] else "plain"] += 1
@@ -397,7 +428,11 @@ def distribution(cases):
         d["extra_observers"][c["nobs"]] = d["extra_observers"].get(c["nobs"], 0) + 1
         C, t = cut_instant(c), 0
         alive = True
+        sr = c["setup"]["ret"]
+        d["failed_setup_with_async_cleanup"] += (sr[0] == "raise" or (sr[0] == "later" and sr[2] is not None)) and \
+            any(x["ret"][0] in ("later", "never") for x in c["cleanups"])
         for s in plan(c):
+            d["with_poller"] += s.get("poll") is not None
             k = s["ret"][0] if s["ret"][0] != "raise" else "raise-" + s["ret"][1]
             d["stage_ret"][k] = d["stage_ret"].get(k, 0) + 1
             d["with_leftovers"] += bool(s["leave"])
